@@ -1,0 +1,333 @@
+//! Verification hooks, only compiled with the `verif-hooks` cargo feature
+//!
+//! Nothing in here changes behaviour unless a test harness installs a [Hooks] object on the
+//! calling thread with [with_hooks]. With hooks installed, the two sampling sites of the sampled
+//! solvers (chance infosets and external player infosets) report every draw they make, can run
+//! on a seeded random number generator instead of [rand::thread_rng], and can have the drawn index
+//! replaced; parallel tasks report when they start.
+use crate::{Game, Node, PlayerInfoset};
+use rand::rngs::ThreadRng;
+use rand::{Error as RandError, RngCore};
+use std::cell::RefCell;
+use std::mem;
+use std::sync::atomic::{AtomicU64, AtomicUsize, Ordering};
+use std::sync::Arc;
+
+/// The kind of a sampling site
+#[derive(Debug, Clone, Copy, PartialEq, Eq, Hash, PartialOrd, Ord)]
+pub enum SiteKind {
+    /// a chance infoset; `slot` is the chance infoset index
+    Chance,
+    /// a player infoset of the external sampled solver; slots count player one's infosets first
+    /// and then player two's
+    Player,
+}
+
+/// Identification of one draw
+#[derive(Debug, Clone, Copy, PartialEq, Eq, Hash, PartialOrd, Ord)]
+pub struct Site {
+    /// what is sampled
+    pub kind: SiteKind,
+    /// the index of the infoset in creation order
+    pub slot: usize,
+    /// the pass (one based) during which the draw happens
+    pub pass: u64,
+}
+
+/// Callbacks a harness can install
+pub trait Hooks: Send + Sync {
+    /// if some, the production sampler of this site runs on a generator seeded with the value
+    fn rng_seed(&self, _site: &Site) -> Option<u64> {
+        None
+    }
+
+    /// called after the production sampler produced `produced` from `weights`; the return value
+    /// is what the solver uses
+    fn draw(&self, _site: &Site, _weights: &[f64], produced: usize) -> usize {
+        produced
+    }
+
+    /// called when a parallel task starts
+    fn task_start(&self, _pass: u64) {}
+}
+
+/// State shared by everything that belongs to one hooked call
+pub struct Session {
+    hooks: Arc<dyn Hooks>,
+    pass: AtomicU64,
+    chance_slots: AtomicUsize,
+    player_slots: AtomicUsize,
+}
+
+impl std::fmt::Debug for Session {
+    fn fmt(&self, fmt: &mut std::fmt::Formatter<'_>) -> std::fmt::Result {
+        write!(fmt, "Session")
+    }
+}
+
+thread_local! {
+    static CURRENT: RefCell<Option<Arc<Session>>> = const { RefCell::new(None) };
+}
+
+struct Uninstall(Option<Arc<Session>>);
+
+impl Drop for Uninstall {
+    fn drop(&mut self) {
+        let prev = self.0.take();
+        CURRENT.with(|cur| *cur.borrow_mut() = prev);
+    }
+}
+
+/// Run `func` with `hooks` installed for every solve started on this thread
+pub fn with_hooks<R>(hooks: Arc<dyn Hooks>, func: impl FnOnce() -> R) -> R {
+    let session = Arc::new(Session {
+        hooks,
+        pass: AtomicU64::new(0),
+        chance_slots: AtomicUsize::new(0),
+        player_slots: AtomicUsize::new(0),
+    });
+    let prev = CURRENT.with(|cur| cur.borrow_mut().replace(session));
+    let _guard = Uninstall(prev);
+    func()
+}
+
+/// Install a session on the current thread (used on the thread that runs a pool scope)
+pub(crate) fn install(session: Option<Arc<Session>>) -> impl Drop {
+    let prev = CURRENT.with(|cur| mem::replace(&mut *cur.borrow_mut(), session));
+    Uninstall(prev)
+}
+
+pub(crate) fn current() -> Option<Arc<Session>> {
+    CURRENT.with(|cur| cur.borrow().clone())
+}
+
+pub(crate) fn begin_pass(session: &Option<Arc<Session>>) {
+    if let Some(sess) = session {
+        sess.pass.fetch_add(1, Ordering::SeqCst);
+    }
+}
+
+pub(crate) fn task_start(session: &Option<Arc<Session>>) {
+    if let Some(sess) = session {
+        sess.hooks.task_start(sess.pass.load(Ordering::SeqCst));
+    }
+}
+
+/// The per infoset part of a session
+#[derive(Debug)]
+pub(crate) struct SiteHandle {
+    session: Arc<Session>,
+    kind: SiteKind,
+    slot: usize,
+}
+
+impl SiteHandle {
+    pub(crate) fn new(kind: SiteKind) -> Option<SiteHandle> {
+        current().map(|session| {
+            let counter = match kind {
+                SiteKind::Chance => &session.chance_slots,
+                SiteKind::Player => &session.player_slots,
+            };
+            let slot = counter.fetch_add(1, Ordering::SeqCst);
+            SiteHandle {
+                session,
+                kind,
+                slot,
+            }
+        })
+    }
+
+    fn site(&self) -> Site {
+        Site {
+            kind: self.kind,
+            slot: self.slot,
+            pass: self.session.pass.load(Ordering::SeqCst),
+        }
+    }
+}
+
+/// Either the thread generator or a seeded one
+pub(crate) enum SiteRng {
+    Thread(ThreadRng),
+    Seeded(SplitMix),
+}
+
+/// The generator the sampler at `handle` should use
+pub(crate) fn site_rng(handle: &Option<SiteHandle>, fallback: ThreadRng) -> SiteRng {
+    match handle
+        .as_ref()
+        .and_then(|hand| hand.session.hooks.rng_seed(&hand.site()))
+    {
+        Some(seed) => SiteRng::Seeded(SplitMix::new(seed)),
+        None => SiteRng::Thread(fallback),
+    }
+}
+
+/// Report a draw and get the index to use
+pub(crate) fn draw(handle: &Option<SiteHandle>, weights: &[f64], produced: usize) -> usize {
+    match handle {
+        Some(hand) => hand.session.hooks.draw(&hand.site(), weights, produced),
+        None => produced,
+    }
+}
+
+impl RngCore for SiteRng {
+    fn next_u32(&mut self) -> u32 {
+        match self {
+            SiteRng::Thread(rng) => rng.next_u32(),
+            SiteRng::Seeded(rng) => rng.next_u32(),
+        }
+    }
+
+    fn next_u64(&mut self) -> u64 {
+        match self {
+            SiteRng::Thread(rng) => rng.next_u64(),
+            SiteRng::Seeded(rng) => rng.next_u64(),
+        }
+    }
+
+    fn fill_bytes(&mut self, dest: &mut [u8]) {
+        match self {
+            SiteRng::Thread(rng) => rng.fill_bytes(dest),
+            SiteRng::Seeded(rng) => rng.fill_bytes(dest),
+        }
+    }
+
+    fn try_fill_bytes(&mut self, dest: &mut [u8]) -> Result<(), RandError> {
+        self.fill_bytes(dest);
+        Ok(())
+    }
+}
+
+/// A small deterministic generator (splitmix64)
+#[derive(Debug, Clone)]
+pub struct SplitMix(u64);
+
+impl SplitMix {
+    /// Create a generator from a seed
+    pub fn new(seed: u64) -> Self {
+        SplitMix(seed)
+    }
+}
+
+impl RngCore for SplitMix {
+    fn next_u32(&mut self) -> u32 {
+        (self.next_u64() >> 32) as u32
+    }
+
+    fn next_u64(&mut self) -> u64 {
+        self.0 = self.0.wrapping_add(0x9E37_79B9_7F4A_7C15);
+        let mut z = self.0;
+        z = (z ^ (z >> 30)).wrapping_mul(0xBF58_476D_1CE4_E5B9);
+        z = (z ^ (z >> 27)).wrapping_mul(0x94D0_49BB_1331_11EB);
+        z ^ (z >> 31)
+    }
+
+    fn fill_bytes(&mut self, dest: &mut [u8]) {
+        for chunk in dest.chunks_mut(8) {
+            let bytes = self.next_u64().to_le_bytes();
+            chunk.copy_from_slice(&bytes[..chunk.len()]);
+        }
+    }
+
+    fn try_fill_bytes(&mut self, dest: &mut [u8]) -> Result<(), RandError> {
+        self.fill_bytes(dest);
+        Ok(())
+    }
+}
+
+static YIELD_MODE: AtomicU64 = AtomicU64::new(0);
+static YIELD_COUNT: AtomicU64 = AtomicU64::new(0);
+
+/// Make worker threads yield or spin at instrumented points (0 turns it off)
+///
+/// This is process global and only serves to diversify thread schedules.
+pub fn set_yield_mode(mode: u64) {
+    YIELD_MODE.store(mode, Ordering::SeqCst);
+}
+
+pub(crate) fn yield_point() {
+    let mode = YIELD_MODE.load(Ordering::Relaxed);
+    if mode != 0 {
+        let count = YIELD_COUNT.fetch_add(1, Ordering::Relaxed);
+        let mut mix = SplitMix::new(mode ^ count.wrapping_mul(0x2545_F491_4F6C_DD1D));
+        match mix.next_u64() % 8 {
+            0 | 1 => std::thread::yield_now(),
+            2 => {
+                for _ in 0..(mix.next_u64() % 512) {
+                    std::hint::spin_loop();
+                }
+            }
+            _ => (),
+        }
+    }
+}
+
+/// A node of the compact game tree
+#[derive(Debug, Clone, PartialEq)]
+pub enum DumpNode {
+    /// terminal with payoff to player one
+    Terminal(f64),
+    /// chance node with infoset index and outcomes
+    Chance(usize, Vec<DumpNode>),
+    /// player node with player (0 or 1), infoset index and actions
+    Player(usize, usize, Vec<DumpNode>),
+}
+
+/// The compact game as the solvers see it
+#[derive(Debug, Clone, PartialEq)]
+pub struct Dump {
+    /// the root of the tree
+    pub root: DumpNode,
+    /// the probabilities of every chance infoset
+    pub chance_probs: Vec<Vec<f64>>,
+    /// for each player and infoset the number of actions and the previous infoset
+    pub player_infosets: [Vec<(usize, Option<usize>)>; 2],
+    /// the number of single action infosets of each player
+    pub num_singles: [usize; 2],
+}
+
+fn dump_node(node: &Node) -> DumpNode {
+    match node {
+        Node::Terminal(pay) => DumpNode::Terminal(*pay),
+        Node::Chance(chance) => DumpNode::Chance(
+            chance.infoset,
+            chance.outcomes.iter().map(dump_node).collect(),
+        ),
+        Node::Player(player) => DumpNode::Player(
+            match player.num {
+                crate::PlayerNum::One => 0,
+                crate::PlayerNum::Two => 1,
+            },
+            player.infoset,
+            player.actions.iter().map(dump_node).collect(),
+        ),
+    }
+}
+
+pub(crate) fn dump<I, A>(game: &Game<I, A>) -> Dump {
+    let [one, two] = &game.player_infosets;
+    let [single_one, single_two] = &game.single_infosets;
+    Dump {
+        root: dump_node(&game.root),
+        chance_probs: game
+            .chance_infosets
+            .iter()
+            .map(|info| info.probs.to_vec())
+            .collect(),
+        player_infosets: [
+            one.iter()
+                .map(|info| (info.num_actions(), info.prev_infoset()))
+                .collect(),
+            two.iter()
+                .map(|info| (info.num_actions(), info.prev_infoset()))
+                .collect(),
+        ],
+        num_singles: [single_one.len(), single_two.len()],
+    }
+}
+
+/// Run the production categorical sampler on `probs` with `rng`
+pub fn multinomial_sample(probs: &[f64], rng: &mut impl rand::Rng) -> usize {
+    crate::solve::verif_multinomial_sample(probs, rng)
+}
